@@ -16,8 +16,10 @@ CONSTANTS
   DisabledLeavesUnused = TRUE
   SubCodesMatch = TRUE
   BlockersBypass = TRUE
+  AssumeNoCrossCodeDups = TRUE
 INVARIANT Exactness
 INVARIANT DisableExact
+INVARIANT OutputExactness
 INVARIANT UnusedExact
 INVARIANT ExitCode
 INVARIANT Emit
